@@ -48,6 +48,11 @@ CLAIMS = {
          "everything NATS forbids, that every reply envelope and every static payload literal has exactly one of result/resource/error with string code/message, that meta is only reachable "
          "behind the HTTP and not-replied guards, that marshal output is published only when err==nil and a marshal failure always becomes system.internalError (ToError maps by plain type assertion, no unwrapping), that every reply payload is a package-level literal or json.Marshal output (never string concatenation), and that pre-responses and event payload structs have the documented shape. JSON "
          "produced by encoding/json for user values is trusted.", "DESIGN.md section 4 C07"),
+ "C10": ("sibling agreement between the store handler's get path and change path (default substitution, Transform) + edge placement in the model diff + nil-edge selection of create/delete",
+         "Decides the structural part of client coherence: the representation the change handler diffs is built like the one get serves (a missing value becomes the default with and without a "
+         "transformer - a genuine defect here was repaired, fix 9e8a6c6 -, stored values go through Transform on both paths), create / delete are selected on the nil edges of those "
+         "representations with the resource id from IDToRID of the after (else before) value, and the model diff marks removed keys with the delete action on the not-present edge and reports "
+         "a key only when it is new or not Equal. The remove/add edit script of the collection diff (LCS index arithmetic) is NOT decided: no static argument in reach bounds it.", "DESIGN.md section 4 C10"),
  "C11": ("lock-mode pairing census + sentinel reachability + callback-count typestate with argument value flow + closure-order dominance + receiver-kind cache-coherence rule",
          "Decides per shipped store the structural part of map-equivalence: Read/Write acquire and the txn's own Close releases the same mode on the txn id exactly once; duplicate / not-found "
          "sentinels are returned and the raw database sentinel is not; Create guards the empty id; exactly one change fan-out on success returns, after the success edge, with (id, value read in "
@@ -96,11 +101,7 @@ CLAIMS = {
          "not decided; 'a failing apply publishes nothing' is C08.O3.", "DESIGN.md section 4 C20"),
 }
 
-NA = {
- "C10": "edit-script correctness of the model/collection diff is a statement about index arithmetic and value equality over all before/after pairs; "
-        "its only structural clauses (events go through the resource event methods, publish-after-apply) are C08's, and no necessary condition "
-        "specific to C10 can be decided without evaluating the diff (DESIGN.md section 1)",
-}
+NA = {}
 
 def main():
     props = [json.loads(l) for l in open(os.path.join(HERE, "properties.jsonl"))]
